@@ -1189,8 +1189,10 @@ class PDFCIDFont(PDFFont):
             spec_encoding = spec["Encoding"]
             if hasattr(spec_encoding, "name"):
                 cmap_name = literal_name(spec["Encoding"])
-            else:
+            elif isinstance(spec_encoding, (dict, PDFStream)):
                 cmap_name = literal_name(spec_encoding["CMapName"])
+            elif strict:
+                raise PDFFontError("Encoding is neither a name nor a CMap stream")
         except KeyError:
             if strict:
                 raise PDFFontError("Encoding is unspecified")
